@@ -55,7 +55,10 @@ class Env:
                 self.bench.close()
             except Exception:
                 pass
-        self.bench = SshBench(self.dr) if self.ssh else sftpbench.Bench(self.dr, si_cls=sftpfaults.RawDirServer)
+        # FaultyServer == RawDirServer unless a short-read script is set (big-read stratum only)
+        self.script = sftpfaults.Script()
+        self.bench = SshBench(self.dr) if self.ssh else sftpbench.Bench(self.dr, si_cls=sftpfaults.FaultyServer,
+                                                                        si_kwargs=dict(script=self.script))
         self.uses = 0
 
     def close(self):
@@ -94,9 +97,13 @@ OPSTATE = (("tell", "wbuf", "tell_with_pending_writes"), ("read", "wbuf", "read_
            ("truncate", "rbuf", "truncate_with_readahead"))
 
 
-def one_case(ctx, env, idx, clean):
+def one_case(ctx, env, idx, clean, bigread=None):
     rng = ctx.rng
-    case = D.draw_case(rng, idx, clean)
+    if bigread is not None:
+        case = D.draw_bigread_case(rng, bigread, "f%d" % idx)
+    else:
+        case = D.draw_case(rng, idx, clean)
+    env.script.short = tuple(case["short"]) if case.get("short") else None
     loc = D.LocalRun(rng, env.da, env.db, case)
     fp = (case["mode"], case["bufsize"], case["pipelined"], case["init"], loc.ops)
     if not loc.ok:
@@ -127,6 +134,14 @@ def one_case(ctx, env, idx, clean):
     ctx.count("programs_judged")
     ctx.count("programs_%s" % ("clean" if clean else "general"))
     ctx.count("programs_mode_" + case["mode"])
+    if case.get("bigread"):
+        ctx.count("bigread_programs")
+        ctx.count("bigread_programs_mode_" + case["mode"])
+        ctx.count("bigread_programs_%s" % ("buffered" if case["bufsize"] > 1 else "unbuffered_or_linebuffered"))
+        if case["prefetch"]:
+            ctx.count("bigread_programs_with_prefetch")
+        if case.get("short"):
+            ctx.count("bigread_programs_short_reading_server")
     if env.ssh:
         ctx.count("programs_over_ssh")
     if err is not None:
@@ -139,9 +154,13 @@ def one_case(ctx, env, idx, clean):
                       "SFTPClient.open raised where the local open succeeded",
                       D.witness(case, ops, lres, steps, None, "open", dict(error=err[:3])))
         return
-    for st in steps:
+    for si_, st in enumerate(steps):
         k = st["op"][0]
         ctx.count("ops_compared")
+        if k in D.READ_OPS and D.result_len(lres[si_]) > D.MAXREQ:
+            # one call whose (local) result is longer than the largest READ request
+            ctx.count("reads_spanning_multiple_requests")
+            ctx.count("reads_spanning_multiple_requests_%s" % ("buffered" if st["pre"]["flags"] & D.F_BUFFERED else "unbuffered"))
         if k in D.READ_OPS or k == "tell":
             ctx.count("return_values_compared")
         if st["disk"] is not None:
@@ -178,7 +197,7 @@ def run(ctx):
     logging.getLogger("paramiko").addHandler(logging.NullHandler())
     logging.getLogger("paramiko").propagate = False
     n_clean = ctx.pick(130, 1000)
-    n_general = ctx.pick(260, 2000)
+    n_general = ctx.pick(240, 2000)
     n_ssh = ctx.pick(12, 120)
     end = ctx.deadline(150, 1200)
     env = ctx.guard(Env)
@@ -197,6 +216,18 @@ def run(ctx):
                 idx += 1
     finally:
         env.close()
+    # directed stratum: files > 64 KiB, single reads longer than one max-size request, every read mode,
+    # buffered/unbuffered, with/without prefetch, full-length and short-reading server
+    envb = ctx.guard(Env)
+    if envb is not None:
+        try:
+            for j in range(ctx.pick(24, 120)):
+                if time.time() > end:
+                    break
+                one_case(ctx, envb, idx, True, bigread=j + 5 * ctx.shard)
+                idx += 1
+        finally:
+            envb.close()
     envs = ctx.guard(Env, True)
     if envs is not None:
         try:
@@ -216,5 +247,13 @@ def run(ctx):
     ctx.require("write_with_readahead", ctx.pick(40, 600))
     ctx.require("tell_with_pending_writes", ctx.pick(100, 1500))
     ctx.require("truncate_with_pending_writes", ctx.pick(100, 1500))
+    ctx.require("bigread_programs", ctx.pick(150, 1500))
+    ctx.require("reads_spanning_multiple_requests", ctx.pick(200, 2500))
+    ctx.require("reads_spanning_multiple_requests_buffered", ctx.pick(100, 1200))
+    ctx.require("reads_spanning_multiple_requests_unbuffered", ctx.pick(40, 500))
+    ctx.require("bigread_programs_with_prefetch", ctx.pick(50, 500))
+    ctx.require("bigread_programs_short_reading_server", ctx.pick(40, 400))
+    for m in D.BIG_MODES:
+        ctx.require("bigread_programs_mode_" + m, ctx.pick(30, 300))
     for m in D.MODES:
         ctx.require("programs_mode_" + m, ctx.pick(100, 1500))
